@@ -310,7 +310,7 @@ class Ref:
             cfg = c['vfail']
             go = self.truth(cfg['when']) if 'when' in cfg else True
             if go:
-                msg = self.fmt(cfg['msg'])
+                msg = cfg['msg'] if 'cached' in cfg else self.fmt(cfg['msg'])
                 if not isinstance(msg, str):
                     raise Unsupported('msg')
                 raise StepError(cfg['err'], msg)
